@@ -41,6 +41,7 @@ func (s *IterVisitor) All(root Node) iter.Seq[Node] {
 }
 
 func (s *IterVisitor) send(v Node) bool {
+	verifObserveSend(s.nodeC)
 	s.nodeC <- v
 	return true
 }
